@@ -932,17 +932,41 @@ func returnedStruct(fn *ssa.Function) *ssa.Alloc {
 // closeWaits inspects a Close method: does it wait, does it cancel, and does cancel come first on all paths.
 func closeWaits(fn *ssa.Function) (waits, cancels, order bool) {
 	var waitIn, cancelIn ssa.Instruction
+	innerOrder := false
 	instrs(fn, func(b *ssa.BasicBlock, i int, in ssa.Instruction) {
 		call, ok := in.(*ssa.Call)
 		if !ok {
 			return
 		}
-		if cal := call.Call.StaticCallee(); cal != nil && fname(cal) == "Wait" && cal.Signature.Recv() != nil {
+		if cal := staticCallee(&call.Call); cal != nil && fname(cal) == "Wait" && cal.Signature.Recv() != nil {
 			rt := cal.Signature.Recv().Type()
 			if isNamedType(rt, "sync", "WaitGroup") || isNamedType(rt, "errgroup", "Group") {
 				waitIn = in
 			}
 			return
+		}
+		// a call of a func-typed field that only ever holds one literal (s.stop(), with stop: func() { cancel(); workers.Wait() }):
+		// what that literal does happens here
+		if !call.Call.IsInvoke() {
+			if _, isLd := call.Call.Value.(*ssa.UnOp); isLd {
+				if lit := resolveFuncValue(call.Call.Value, 0); lit != nil && lit.Parent() != nil && lit != fn && len(call.Call.Args) == 0 {
+					w2, c2, o2 := closeWaits(lit)
+					if w2 && c2 {
+						if o2 && waitIn == nil {
+							waitIn, cancelIn, innerOrder = in, in, true
+						}
+						return
+					}
+					if w2 {
+						waitIn = in
+						return
+					}
+					if c2 {
+						cancelIn = in
+						return
+					}
+				}
+			}
 		}
 		// a call of a func-typed field named cancel/bgCancel whose type is func()
 		if !call.Call.IsInvoke() {
@@ -958,6 +982,9 @@ func closeWaits(fn *ssa.Function) (waits, cancels, order bool) {
 	cancels = cancelIn != nil
 	if waits && cancels {
 		order = cancelIn.Block().Dominates(waitIn.Block()) && (cancelIn.Block() != waitIn.Block() || idxIn(cancelIn) < idxIn(waitIn))
+		if cancelIn == waitIn {
+			order = innerOrder
+		}
 	}
 	return
 }
